@@ -442,6 +442,10 @@ func (w *worker[T, JobType]) goEventLoop() {
 					w.sendError(err)
 				}
 			}
+
+			// Nothing more to dispatch. If the queues were emptied without any job completing
+			// (purged), no completion will wake a waiter that saw them non-empty: do it here.
+			w.releaseWaiters(w.curProcessing.Load())
 		}
 	}(w.eventLoopSignal)
 }
